@@ -37,17 +37,15 @@ MENU = ["call(a1,a2)", "call(a5)", "call(a1,BAD)", "call()", "e=executor()", "e=
 
 def cases(tier: str):
     q = tier == "quick"
-    for depth in ((0, 1, 2) if q else (0, 1, 2, 3)):
+    for depth in ((0, 1, 2, 3) if q else (0, 1, 2, 3, 4)):
         for name in DAGS:
             for is_async in (False, True):
                 for hist in itertools.product(range(len(MENU)), repeat=depth):
+                    if depth >= 3 and is_async and q:
+                        continue
+                    if depth == 4 and not ((2 in hist or 7 in hist or 3 in hist) and (6 in hist or 7 in hist or 8 in hist or 11 in hist)):
+                        continue  # depth 4: histories with a failing operation and an executor run / compose / copy
                     yield dict(dag=name, is_async=is_async, hist=list(hist))
-    if q:
-        # depth 3 restricted to histories that contain a failing operation or an executor run (the interesting ones)
-        for name in DAGS:
-            for hist in itertools.product(range(len(MENU)), repeat=3):
-                if (2 in hist or 7 in hist) and (6 in hist or 7 in hist):
-                    yield dict(dag=name, is_async=False, hist=list(hist))
 
 
 def results_ok(acc, c, names, inst, base_keys):
